@@ -689,13 +689,16 @@ def _shape_arg(d):
     return tuple(d["shape"]) if d.get("sk", "tuple") == "tuple" else list(d["shape"])
 
 
-def build_spec(d):
+def build_spec(d, order=0):
+    """order: in which keyword order the children of a nested spec are handed to the constructor (0 sorted by name,
+    1 reversed, 2 rotated by one) - children are identified by name, so the order must not matter to anything."""
     from jumanji import specs
 
     k = d["k"]
     if k == "nested":
         fields = sorted(d["c"])
-        return specs.Spec(ctor(d["ctor"], fields), d["name"], **{f: build_spec(d["c"][f]) for f in fields})
+        given = fields if order == 0 else (fields[::-1] if order == 1 else fields[1:] + fields[:1])
+        return specs.Spec(ctor(d["ctor"], fields), d["name"], **{f: build_spec(d["c"][f], order) for f in given})
     dt = _dtype_arg(d["dtype"], d.get("dk", "str"))
     if k == "array":
         return specs.Array(_shape_arg(d), dt, d["name"])
@@ -1359,7 +1362,7 @@ def eval_case(case):
     check_self(E, s, d)
     check_samples(E, s, d, gym_space, case["gym_seed"])
     descs = [d, case["b"], case["c"]]
-    specs_ = [s, build_spec(case["b"]), build_spec(case["c"])]
+    specs_ = [s, build_spec(case["b"], 1), build_spec(case["c"], 2)]
     check_eq_matrix(E, descs, specs_)
     if nested:
         check_replace_nested(E, s, d, case["replace"])
